@@ -2274,7 +2274,10 @@ def _compute_arguments_dict_matching_score(
             return 0.0
     elif isinstance(ref_args, ComparisonExpression):
         return ref_args.compare(args)
-    elif not isinstance(ref_args, type(args)):
+    elif not isinstance(ref_args, type(args)) and not (
+        isinstance(ref_args, dict) and isinstance(args, dict)
+    ):
+        # (a dictionary that went through a variable is a dict subclass and still a dictionary)
         return 0.0
     elif isinstance(ref_args, dict):
         argument_filter = (
